@@ -211,8 +211,18 @@ func (p c17) Run(ctx *core.RunCtx) {
 	}
 	key := make([]byte, 32)
 	core.NewXoshiro(uint64(ch.Draw("key", 1<<20))).Fill(key)
-	A := newC17Side(ctx, key, r, d)
-	B := newC17Side(ctx, key, r, d)
+	// each side gets its own copy of the key; the caller's buffer of the system
+	// side is wiped after construction in half of the runs (a generator must
+	// not depend on the caller's slice after it has been keyed)
+	keyA := append([]byte{}, key...)
+	A := newC17Side(ctx, keyA, r, d)
+	B := newC17Side(ctx, append([]byte{}, key...), r, d)
+	if ch.Bool("wipe-caller-key") {
+		for i := range keyA {
+			keyA[i] = 0xA5
+		}
+		ctx.Count("fault.caller-key-buffer-wiped", 1)
+	}
 	ctx.Event("config %s dist=%s", spec, d)
 
 	nsteps := 4 + ch.Draw("nsteps", 47)
@@ -296,9 +306,15 @@ func (p c17) Run(ctx *core.RunCtx) {
 	}
 	// raw stream replay
 	{
-		k1, _ := sampling.NewKeyedPRNG(key)
+		kbuf := append([]byte{}, key...)
+		k1, _ := sampling.NewKeyedPRNG(kbuf)
 		b1 := make([]byte, 1+ch.Draw("raw-len", 3000))
 		k1.Read(b1)
+		if ch.Bool("raw-wipe-caller-key") {
+			for i := range kbuf {
+				kbuf[i] ^= 0x5A
+			}
+		}
 		k1.Reset()
 		b2 := make([]byte, len(b1))
 		// read in two pieces: the stream must not depend on how it is cut
